@@ -23,6 +23,47 @@ THEOREMS = ["IstioModel.C14.MonitorTheorems"]
 KERNEL_STREAMS = ()
 
 
+# Findings of this check that are NOT fixed in /repo (see notes/C14.md, section Findings). The coordinator
+# records them in known-findings.json (status: known); until an entry is there, this local copy is used, as
+# BUILDING.md allows. Anything not listed here - in particular every crash, every closure or name-uniqueness
+# violation and every collision from admitted objects other than the three below - still fails the run.
+LOCAL_KNOWN = [
+    # objects that pass admission validation
+    ("snapshot:addr-unique:admitted:ServiceEntry",
+     "a service on port 15001 (the sidecar's own virtualOutbound port) yields a second listener on 0.0.0.0:15001; Envoy rejects it (duplicate address)"),
+    ("snapshot:dup-fcm:admitted:Gateway+VirtualService",
+     "a TLS PASSTHROUGH server with a wildcard host and a TLS-terminating server for host H on one gateway port, plus a VirtualService tls route "
+     "with sniHosts [H]: two filter chains match server_names [H]; Envoy rejects the gateway listener"),
+    ("snapshot:weights:admitted:tag=vs-huge-weights",
+     "validation admits HTTP route weights whose sum exceeds 4294967295 (it adds them in an int32); Envoy rejects the RouteConfiguration"),
+    ("snapshot:api-valid:RouteAction_HashPolicy_Header.HeaderName:_value_length_must_be_at_least_N_runes:admitted:tag=dr-empty-hash",
+     "validation admits consistentHash.httpHeaderName = \"\"; the generated hash policy is rejected by Envoy (header_name min_len 1)"),
+    ("snapshot:api-valid:Cluster_RingHashLbConfig.MinimumRingSize:_value_must_be_less_than_or_equal_to_N:admitted:tag=dr-empty-hash",
+     "validation admits consistentHash.minimumRingSize above Envoy's maximum 8388608; Envoy rejects the cluster"),
+    # objects admission validation rejects, loaded past it: generation copies the invalid value into the Envoy
+    # configuration and Envoy rejects the response (no crash). One class per violated clause / API rule.
+    ("snapshot:weights:invalid-input", "invalid VirtualService weights / an HTTP route without action reach weighted_clusters unchanged"),
+    ("snapshot:dup-domain:invalid-input", "a host \"*\" (ServiceEntry / mesh VirtualService) becomes a second \"*\" domain beside the catch-all virtual host"),
+    ("snapshot:dup-fcm:invalid-input", "invalid ports / hosts produce two filter chains with one match"),
+    ("snapshot:addr-unique:invalid-input", "invalid service ports produce two listeners on one address"),
+    ("snapshot:api-valid:SocketAddress.PortValue:_value_must_be_less_than_or_equal_to_N:invalid-input", "a port above 65535 reaches a socket address"),
+    ("snapshot:api-valid:SocketAddress.Address:_value_length_must_be_at_least_N_runes:invalid-input", "an empty endpoint / host address reaches a socket address"),
+    ("snapshot:api-valid:Route.Action:_value_is_required:invalid-input", "an HTTP route with both redirect and route, or none, yields a route without action"),
+    ("snapshot:api-valid:HeaderValue.Key:_value_length_must_be_at_least_N_runes:invalid-input", "an empty header name in headers.set/add reaches request_headers_to_add"),
+    ("snapshot:api-valid:HeaderMatcher.Name:_value_length_must_be_at_least_N_runes:invalid-input", "an empty header name in a match reaches a HeaderMatcher"),
+    ("snapshot:api-valid:Cluster.ConnectTimeout:_value_must_be_greater_than_Ns:invalid-input", "a negative connectTimeout reaches the cluster"),
+    ("snapshot:api-valid:FilterChainMatch.DestinationPort:_value_must_be_inside_range_[N:invalid-input", "a port-level PeerAuthentication for port 0 / above 65535 reaches an inbound filter chain match"),
+    ("snapshot:api-valid:RouteAction_HashPolicy_Header.HeaderName:_value_length_must_be_at_least_N_runes:invalid-input", "as the admitted variant, in a rejected object"),
+]
+
+
+def install_local_known(ctx):
+    have = {k.get("fingerprint") for k in ctx.known}
+    for fp, what in LOCAL_KNOWN:
+        if fp not in have:
+            ctx.known.append({"property_id": ctx.pid, "status": "known", "fingerprint": fp, "what": what + " [" + fp + "]"})
+
+
 # ---------------------------------------------------------------------------------------------- helpers
 
 def split_cases(lines):
@@ -49,17 +90,21 @@ def verdict_class(impl_line):
         if len(f) > 1 and f[1] == "api-valid":
             for t in info.split():
                 if t.startswith("pgv="):
-                    return "bad api-valid " + t[4:]
+                    return "bad api-valid " + t[4:].split(",")[0]
         return "bad " + f[1] if len(f) > 1 else "bad"
     if f[0] in ("crash", "timeout"):
         return v
     return ""
 
 
-def exec_snapshot(ctx, ops_path, tag):
-    """Run the real code on an ops file; survives a crash of the harness PROCESS (a panic in a goroutine of the
-    control plane cannot be recovered): the case during which the process died is recorded as `crash process`
-    and execution resumes with the next case.  Returns (impl_lines, snap_lines) aligned with the ops lines."""
+CHUNK = 200  # cases per harness process: every FakeDiscoveryServer leaves goroutines and krt debug state behind
+
+
+def exec_snapshot(ctx, ops_path, tag, retry=True):
+    """Run the real code on an ops file, CHUNK cases per process. Survives a crash of the harness PROCESS (a panic
+    in a goroutine of the control plane cannot be recovered): the case during which the process died is re-run
+    alone once; if it dies again it is recorded as `crash process ...`; execution resumes with the next case.
+    Returns (impl_lines, snap_lines) aligned with the ops lines."""
     ops = ctx.read_lines(ops_path)
     cases = split_cases(ops)
     impl_all, snap_all = [], []
@@ -67,9 +112,10 @@ def exec_snapshot(ctx, ops_path, tag):
     rounds = 0
     while start < len(cases):
         rounds += 1
-        part = os.path.join(ctx.work, "snapshot.%s.part%d.ops" % (tag, rounds))
-        write_lines(part, [l for c in cases[start:] for l in c])
-        impl_p = os.path.join(ctx.work, "snapshot.%s.part%d.impl" % (tag, rounds))
+        chunk = cases[start:start + CHUNK]
+        part = os.path.join(ctx.work, "snapshot.%s.part.ops" % tag)
+        write_lines(part, [l for c in chunk for l in c])
+        impl_p = os.path.join(ctx.work, "snapshot.%s.part.impl" % tag)
         for p in (impl_p, impl_p + ".snap"):
             if os.path.exists(p):
                 os.remove(p)
@@ -77,10 +123,9 @@ def exec_snapshot(ctx, ops_path, tag):
         impl = ctx.read_lines(impl_p) if os.path.exists(impl_p) else []
         snap = ctx.read_lines(impl_p + ".snap") if os.path.exists(impl_p + ".snap") else []
         n = min(len(impl), len(snap))
-        # keep whole cases only
         done = 0
         used = 0
-        for c in cases[start:]:
+        for c in chunk:  # keep whole cases only
             if used + len(c) <= n:
                 used += len(c)
                 done += 1
@@ -89,17 +134,26 @@ def exec_snapshot(ctx, ops_path, tag):
         impl_all += impl[:used]
         snap_all += snap[:used]
         start += done
-        if rc == 0 and start >= len(cases):
-            break
-        if start < len(cases):
+        if done < len(chunk):
             # the process died (or stopped) inside cases[start]
             c = cases[start]
+            if retry:
+                single = os.path.join(ctx.work, "snapshot.%s.single.ops" % tag)
+                write_lines(single, c)
+                i2, s2 = exec_snapshot(ctx, single, tag + ".single", retry=False)
+                impl_all += i2
+                snap_all += s2
+                if not any(verdict_class(l).startswith("crash process") for l in i2):
+                    ctx.count("snapshot.process_died_but_case_passed_alone")
+                    ctx.log("harness process died (rc=%s) in %s but the case passes alone; tail: %s" % (rc, c[0], log[-300:].replace("\n", " | ")))
+                start += 1
+                continue
             m = re.search(r"^(panic: .*|fatal error: .*)$", log, flags=re.M)
             msg = (m.group(1) if m else "harness exited rc=%d" % rc)
             msg = re.sub(r"0x[0-9a-f]+", "X", msg)
             msg = re.sub(r"[0-9]+", "N", msg)[:100].replace(" ", "_")
             where = ""
-            mm = re.search(r"^(istio\.io/istio/[^\s(]+)", log[log.find(m.group(1)):] if m else "", flags=re.M)
+            mm = re.search(r"^istio\.io/istio/([^\s(]+)", log[log.find(m.group(1)):] if m else "", flags=re.M)
             if mm:
                 where = "@" + mm.group(1).split("/")[-1]
             for l in c:
@@ -110,7 +164,7 @@ def exec_snapshot(ctx, ops_path, tag):
                 snap_all.append(l if l.startswith("case") else "skip")
             ctx.count("snapshot.process_crashes")
             start += 1
-        if rounds > 60:
+        if rounds > 400:
             break
     return impl_all, snap_all
 
@@ -167,37 +221,36 @@ def shrink_case(ctx, case_lines, cls, tag):
 
 def fingerprint(ctx, min_lines, cls, tag):
     """Fingerprint of the minimal failing input class.
-    all objects admitted:       snapshot:<class>:<proxy type>:admitted:<kinds of the minimal mesh>
-    needs a rejected object:    snapshot:<class>:invalid-input:<mutation tags of the rejected objects>"""
+    needs a rejected object:            snapshot:<class>:invalid-input      (the replay names the damaged objects)
+    all admitted, one deliberately
+      damaged (validation has a gap):   snapshot:<class>:admitted:tag=<mutation tags>
+    all admitted, all from the valid
+      generator:                        snapshot:<class>:admitted:<config kinds of the minimal mesh>
+    <class> = violated clause (+ the API's reason for api-valid) or `crash:<where>:<panic>@<function>`."""
     p = os.path.join(ctx.work, "snapshot.%s.fp.ops" % tag)
     write_lines(p, min_lines)
     impl, _ = exec_snapshot(ctx, p, tag + ".fp")
-    kinds, tags, ptype = set(), set(), "?"
+    kinds, rtags, atags = set(), set(), set()
     rejected = False
     for l, o in zip(min_lines, impl):
         f = l.split()
         if f[0] == "cfg":
             kinds.add(f[1])
+            tags = [t[4:] for t in (f[7].split(",") if len(f) > 7 and f[7] != "-" else []) if t.startswith("tag:")]
             if o.startswith("rejected") or o.startswith("undecodable"):
                 rejected = True
-                found = False
-                for t in (f[7].split(",") if len(f) > 7 and f[7] != "-" else []):
-                    if t.startswith("tag:"):
-                        tags.add(t[4:])
-                        found = True
-                if not found:
-                    tags.add("untagged-" + f[1])
-        elif f[0] == "svc":
-            kinds.add("Service")
+                rtags.update(tags)
+            else:
+                atags.update(tags)
         elif f[0] == "kube":
             kinds.add("Kube")
-        elif f[0] == "push" and verdict_class(o) == cls:
-            ptype = f[1]
     c = cls.replace("bad ", "").replace(" ", ":")
     c = re.sub(r"[^A-Za-z0-9_.:\[\]@,=-]", "_", c)[:160]
     if rejected:
-        return "snapshot:%s:invalid-input:%s" % (c, "+".join(sorted(tags))), True
-    return "snapshot:%s:%s:admitted:%s" % (c, ptype, "+".join(sorted(kinds))), False
+        return "snapshot:%s:invalid-input" % c, True, sorted(rtags | atags)
+    if atags:
+        return "snapshot:%s:admitted:tag=%s" % (c, "+".join(sorted(atags))), False, sorted(atags)
+    return "snapshot:%s:admitted:%s" % (c, "+".join(sorted(kinds)) or "Service"), False, []
 
 
 # ---------------------------------------------------------------------------------------------- stream snapshot
@@ -279,12 +332,15 @@ def snapshot_file(ctx, ops_path, tag, budget):
                 ctx.count("snapshot.unshrunk_repeats")
                 continue
             small = shrink_case(ctx, clines, cls, tag)
-            fp, rejected = fingerprint(ctx, small, cls, tag)
+            fp, rejected, tags = fingerprint(ctx, small, cls, tag)
+            if rejected:
+                for t in tags:
+                    ctx.count("snapshot.invalid_input_finding.%s.%s" % (cls.split()[1] if cls.startswith("bad") else "crash", t))
             what = ("real xDS generation yields a snapshot that violates '%s' for a %s proxy (%s)"
                     % (cls, ops[i].split()[1],
                        "only with an object admission validation rejects" if rejected else "all objects pass admission validation"))
             ctx.violation(fp, what, {"stream": "snapshot", "ops": small, "verdict_go": go_v, "verdict_lean_monitor": lean_v,
-                                     "class": cls, "original_case": clines[0], "source": tag}, True)
+                                     "class": cls, "damage": tags, "original_case": clines[0], "source": tag}, True)
     return judged
 
 
@@ -348,6 +404,7 @@ def run(ctx):
     ctx.trusted.append("harness/c14/reduce.go: reduction of Envoy protos to the abstract snapshot (cross-checked on every snapshot by the independent "
                        "Go re-statement wf.go, which works on the protos with proto.Equal)")
     ctx.trusted.append("pilot/pkg/networking/core/zz_verif_c12.go, zz_verif_c14.go (verif-tagged accessors)")
+    install_local_known(ctx)
     ctx.lean_prove(THEOREMS)
     if not ctx.build_drv():
         return
@@ -381,6 +438,7 @@ def replay(ctx, path):
     if not ops:
         ctx.log("replay file has no ops; re-running the full check")
         return run(ctx)
+    install_local_known(ctx)
     if not (ctx.build_drv() and ctx.go_build()):
         return
     p = os.path.join(ctx.work, "replay.ops")
